@@ -120,6 +120,34 @@ def scenario(sid, case, vocab, origin):
             "steps": [{"do": "create", "env": "e1", "wf": wf, "timeout_ms": 8000}], "model": case, "origin": origin}
 
 
+AGENTS = cs.DEFAULT_AGENTS + [{"ID": "a3", "Host": "h3", "Attrs": {"machine_id": "h3"}, "CPUs": 16, "Mem": 16384,
+                               "Ports": [[9000, 9200], [30000, 30200]]}]
+IT_ALIAS = {"none": None, "it": "g{{ it }}", "fixed": "g"}
+
+
+def scenario_iter(sid, case, vocab, itc, origin):
+    """Binder/connector generated by a `for:` iterator (ChannelsGen: itc is the compact description, `case` its expansion
+    computed by TLC - the model judges the expansion, this function only writes the template the way itc names it)."""
+    wf = "c13wf%d" % sid
+    files = {}
+    for t in case["tasks"]:   # one class per expanded task (load: "<prefix>s{{ it }}"), so that a launched task names its iteration
+        cls = "c13s%d%s" % (sid, t["id"])
+        files["tasks/%s.yaml" % cls] = cs.task_class(cls, mode=t["mode"])
+    host = "h1" if itc["hosts"] == "same" else "h{{ it }}"
+    b = {"name": "a", "type": "push", "addressing": itc["addr"], "transport": itc["tr"]}
+    if IT_ALIAS[itc["alias"]]:
+        b["global"] = IT_ALIAS[itc["alias"]]
+    target = {"sib": "{{ Parent().Path }}.snd:a", "sibup": "{{ Up(1).Path }}.snd:a", "abs1": "%s.it1.snd:a" % wf,
+              "aliasit": "::g{{ it }}", "aliasfixed": "::g"}[itc["tgt"]]
+    c = {"name": "x", "type": "pull", "target": target, "transport": "default"}
+    roles = cs.role_task("snd", "c13s%ds{{ it }}" % sid, host=host, indent=6, extra=yaml_block("bind", [b], 8))
+    roles += cs.role_task("rcv", "c13s%dr{{ it }}" % sid, host=host, indent=6, extra=yaml_block("connect", [c], 8))
+    y = ("name: %s\nroles:\n  - name: \"it{{ it }}\"\n    for:\n      begin: 1\n      end: %d\n      var: it\n    roles:\n" % (wf, itc["n"])) + roles
+    files["workflows/%s.yaml" % wf] = y
+    return {"id": sid, "family": "C13", "agents": AGENTS, "files": files, "core": {}, "scripts": [], "hooks": {},
+            "steps": [{"do": "create", "env": "e1", "wf": wf, "timeout_ms": 8000}], "model": case, "origin": origin, "iter": itc}
+
+
 # ---------------------------------------------------------------------------------------------
 # projection of the recorded lines (fixed, minimal parsing: key split + address scheme)
 
@@ -148,7 +176,7 @@ def why(errtext):
 
 
 def project(lines):
-    hosts = {a["ID"]: a["Host"] for a in cs.DEFAULT_AGENTS}
+    hosts = {a["ID"]: a["Host"] for a in AGENTS}
     out = []
     done = set()
     for ln in lines:
@@ -233,7 +261,7 @@ def cases_of(ctx, r, what):
     if not recs:
         ctx.save_debug(r, "gen_%s.txt" % what)
         raise vlib.Inconclusive("no cases generated (%s): %s" % (what, vlib.tail(r.out)))
-    return [{"case": c[1], "outcome": c[2], "pred": sorted(c[3]["$set"]), "vocab": c[4]} for c in recs]
+    return [{"case": c[1], "outcome": c[2], "pred": sorted(c[3]["$set"]), "vocab": c[4], "iter": c[5]} for c in recs]
 
 
 def signature(inv, scn, detail, case):
@@ -272,7 +300,8 @@ def _run(ctx, replay_scn):
     ]
     ctx.rule = ("case = (1-3 tasks on 1-2 hosts, <= 2 inbound and <= 2 outbound declarations placed at template / task-role / "
                 "aggregator-role / root level, addressing, transport, alias, explicit targets, path/alias/explicit/dangling connect "
-                "targets, stale chans.* defaults in the template's properties); core catalogue exhaustive + seeded TLC simulation of the full catalogue; non-trivial = every case "
+                "targets, stale chans.* defaults in the template's properties) + binder/connector pairs generated by a for: iterator "
+                "(2-3 iterations on one or several hosts, iteration-dependent targets and aliases); core catalogue exhaustive + seeded TLC simulation of the full catalogue; non-trivial = every case "
                 "(each configures or must be rejected)")
     scenarios = []
     meta = {}
@@ -305,12 +334,15 @@ def _run(ctx, replay_scn):
         seen = set()
         for origin, lst in (("core", core), ("sample", sampled)):
             for c in lst:
-                key = json.dumps(c["case"], sort_keys=True)
+                key = json.dumps([c["case"], c["iter"]], sort_keys=True)   # (different spellings of one expansion are different cases)
                 if key in seen:
                     continue
                 seen.add(key)
                 sid = len(scenarios) + 1
-                scenarios.append(scenario(sid, c["case"], c["vocab"], origin))
+                if c["iter"]["n"] > 0:
+                    scenarios.append(scenario_iter(sid, c["case"], c["vocab"], c["iter"], origin))
+                else:
+                    scenarios.append(scenario(sid, c["case"], c["vocab"], origin))
                 meta[sid] = c
                 ctx.count_case(key)
     ncore = sum(1 for s in scenarios if s["origin"] == "core")
@@ -319,7 +351,7 @@ def _run(ctx, replay_scn):
     ctx.extra["cases_core"] = ncore
     ctx.extra["cases_sampled"] = len(scenarios) - ncore
     by_id = {s["id"]: s for s in scenarios}
-    run_list = [{k: v for k, v in s.items() if k != "origin"} for s in scenarios]
+    run_list = [{k: v for k, v in s.items() if k not in ("origin", "iter")} for s in scenarios]
     # 3. run on the real core
     lines, hung = run_batches(ctx, run_list)
     ctx.extra["create_calls_hung_and_rerun"] = hung
@@ -375,7 +407,11 @@ def _run(ctx, replay_scn):
             continue
         seen_v.add((inv, scn))
         case = by_id.get(scn, {}).get("model", {})
-        ctx.add_violation(signature(inv, scn, detail, case),
+        sig = signature(inv, scn, detail, case)
+        if by_id.get(scn, {}).get("iter"):
+            it = by_id[scn]["iter"]
+            sig["iterator"] = "n=%s hosts=%s alias=%s target=%s" % (it["n"], it["hosts"], it["alias"], it["tgt"])
+        ctx.add_violation(sig,
                           replay_obj={"scenario": {k: v2 for k, v2 in by_id.get(scn, {}).items()}, "detail": detail,
                                       "trace": [p for p in proj if p["scn"] == scn]})
     if unrep and not ctx.violations:
